@@ -399,6 +399,10 @@ def run(chk, ctx):
     from .integ_common import k_program
     k_program(chk, ctx, common.Rng(ctx['seed'], 'C02-program'), 1 if tier == 'quick' else 4, tier, modes=('const', 'delj', 'delj-one', 'vary'))
     l3_const_fn(chk, ctx, rng, 24 if tier == 'quick' else 90)
+    # "every integration path solves the documented scheme": which parameter values each kernel call of each driver receives (every
+    # migration rate by name, 1-5 populations), observed on the recorded calls against a schedule written from the documentation
+    from .integ_common import l3_schedule
+    l3_schedule(chk, ctx, common.Rng(ctx['seed'], 'C02-schedule'), 20 if tier == 'quick' else 100)
     l3_nonneg(chk, ctx, rng, 15 if tier == 'quick' else 100)
     l3_layout(chk, ctx, rng, 12 if tier == 'quick' else 72)
     l3_default_grid(chk, ctx)
